@@ -157,7 +157,7 @@ def run_shard(spec, ctx):
             return (fails[0][0], fails[0][1], progcheck.case_of(prog))
         return None
 
-    core.hyp_search(ctx, gen.program_st(**opts), check, spec["examples"], "c02-" + variant)
+    core.hyp_search(ctx, gen.program_st(dyn_regs=True, **opts), check, spec["examples"], "c02-" + variant)
 
 
 def replay(case):
